@@ -52,9 +52,13 @@ def gen_case(r):
         take = r.randint(1, 3)
         refs = hist[i:i + take]
         i += take
-        how = r.choice(["p", "p", "quote", "list", "table", "em", "link", "heading", "strong", "nested"])
+        how = r.choice(["p", "p", "quote", "list", "table", "em", "link", "heading", "strong", "nested", "em-link", "em-link", "em-code", "strong-em-link"])
         spell = ["[^%s]" % _variant(r, k) for k in refs]
         body = " and ".join("t%d%s" % (len(blocks), s) for s in spell)
+        # references before and inside a link that sits inside emphasis (the parser looks ahead at such links before it
+        # has parsed the text in front of them), optionally with a code span that takes precedence over the emphasis
+        head = "t%d%s" % (len(blocks), spell[0])
+        tail = " and ".join("u%d%s" % (len(blocks), s) for s in spell[1:]) or "v"
         if how == "p":
             blocks.append("para %s end\n" % body)
         elif how == "quote":
@@ -71,6 +75,13 @@ def gen_case(r):
             blocks.append("a [link %s text](/url) here\n" % body)
         elif how == "heading":
             blocks.append("## head %s\n" % body)
+        elif how == "em-link":
+            mk = r.choice(["*", "_", "**"])
+            blocks.append("%ssee %s and [link %s](/u)%s%s after\n" % (mk, head, tail, r.choice(["", " `c`"]), mk))
+        elif how == "em-code":
+            blocks.append("*a %s [x %s](/u) `c* d` e\n" % (head, tail))
+        elif how == "strong-em-link":
+            blocks.append("**s %s *e [l %s](/u) f* g** h\n" % (head, tail))
         else:
             blocks.append("1. > - deep %s\n" % body)
         placements.append(how)
